@@ -60,6 +60,7 @@ type thread struct {
 	recvOK  bool
 	// a blocked send that was woken because the channel was closed
 	sendAborted bool
+	parkSeq     int64 // when this thread parked with its pending operation (orders blocked senders)
 	// hash of everything this thread did and received so far (its local state, given that
 	// threads interact only through hooked operations)
 	hist uint64
@@ -120,6 +121,8 @@ type Sched struct {
 	policy     Policy
 	horizon    int
 	KeepTrace  bool
+	probe      int // 0 = default; k > 0 = at free choice points take alternative (n-k) mod n
+	seq        int64
 	keys       bool
 	exec       *Exec
 	killed     bool
@@ -134,6 +137,24 @@ type Sched struct {
 }
 
 var active atomic.Pointer[Sched]
+
+var epoch atomic.Int64
+
+// Epoch identifies the current execution (0 outside an exploration). State that must not
+// survive from one execution to the next (vsync.Pool items, vsync.Map contents) is dropped
+// when the epoch changes: every execution starts like a fresh process.
+func Epoch() int64 {
+	if active.Load() == nil {
+		return 0
+	}
+	return epoch.Load()
+}
+
+var resets []func()
+
+// RegisterReset registers a function that puts package-level state of the instrumented code
+// back to its initial value; all of them run before every execution.
+func RegisterReset(f func()) { resets = append(resets, f) }
 
 // Active reports whether an exploration is running.
 func Active() bool { return active.Load() != nil }
@@ -179,6 +200,8 @@ func trimStack(b []byte) string {
 func (s *Sched) yield(o op) *thread {
 	t := s.cur
 	t.pend = o
+	s.seq++
+	t.parkSeq = s.seq
 	s.parkCh <- t
 	<-t.wake
 	if t.kill {
@@ -201,12 +224,14 @@ func (s *Sched) opEnabled(t *thread) (bool, *thread) {
 		if o.ch.closed {
 			return true, nil
 		}
+		// blocked senders are served in the order in which they blocked (as the Go runtime does)
+		var first *thread
 		for _, u := range s.threads {
-			if !u.done && u != t && u.pend.kind == opSend && u.pend.ch == o.ch {
-				return true, u
+			if !u.done && u != t && u.pend.kind == opSend && u.pend.ch == o.ch && (first == nil || u.parkSeq < first.parkSeq) {
+				first = u
 			}
 		}
-		return false, nil
+		return first != nil, first
 	case opLock:
 		return o.mu.owner < 0 && o.mu.readers == 0, nil
 	case opRLock:
@@ -413,8 +438,19 @@ func Run(bodies []func(), prefix []int, policy Policy, keepTrace bool) *Exec {
 
 // RunKeyed is Run that additionally records the global state key at every point.
 func RunKeyed(bodies []func(), prefix []int, policy Policy, keepTrace, keys bool) *Exec {
-	s := &Sched{parkCh: make(chan *thread), prefix: prefix, policy: policy, horizon: 2000000, KeepTrace: keepTrace, keys: keys,
+	return RunProbe(bodies, prefix, policy, keepTrace, keys, 0)
+}
+
+// RunProbe is RunKeyed with a different default after the prefix: with probe k > 0 every free
+// choice point (the running thread is blocked or finished, so no preemption is spent) takes
+// alternative (n-k) mod n instead of 0, i.e. the canonical order reversed / rotated.
+func RunProbe(bodies []func(), prefix []int, policy Policy, keepTrace, keys bool, probe int) *Exec {
+	s := &Sched{parkCh: make(chan *thread), prefix: prefix, policy: policy, horizon: 2000000, KeepTrace: keepTrace, keys: keys, probe: probe,
 		exec: &Exec{}, objs: map[uintptr]any{}}
+	epoch.Add(1)
+	for _, f := range resets {
+		f()
+	}
 	if !active.CompareAndSwap(nil, s) {
 		panic("sched: nested exploration")
 	}
@@ -452,6 +488,9 @@ func RunKeyed(bodies []func(), prefix []int, policy Policy, keepTrace, keys bool
 		}
 		ch, curEn := s.choices(all)
 		idx := 0
+		if s.probe > 0 && !curEn && len(ch) > 1 {
+			idx = ((len(ch)-s.probe)%len(ch) + len(ch)) % len(ch)
+		}
 		if len(x.Points) < len(s.prefix) {
 			idx = s.prefix[len(x.Points)]
 			if idx >= len(ch) {
